@@ -368,6 +368,15 @@ func (a *KeyArg) Parse() error {
 	if len(strs) == 0 {
 		return errors.New("invalid key argument: " + string(a.arg))
 	}
+	for _, k := range strs {
+		// key-arg = node-identifier *(sep node-identifier); nested keys
+		// (a descendant path) are accepted as an extension.
+		id := &DescendantSchemaArg{arg: arg(k)}
+		if err := id.Parse(); err != nil {
+			return errors.New("invalid key argument: " + string(a.arg) +
+				": " + err.Error())
+		}
+	}
 	a.keys = strs
 	return nil
 }
